@@ -861,6 +861,97 @@ run_s11(void *arg)
 	vh_fini();
 }
 
+// ---- S13: stream dialer: dial, cancel, dial again -------------------------------------------
+// nng_stream_dialer_dial twice on the same dialer with its own aio each; the first is cancelled
+// while it is still connecting, the second is started at once.  The cancellation belongs to the
+// first operation only: the second must connect (or fail with a genuine connection error), never
+// report NNG_ECANCELED, and both complete exactly once.
+static op S13a, S13b;
+static void
+run_s13(void *arg)
+{
+	int tran = (int) (intptr_t) arg; // 0 tcp, 1 ipc
+	vs_tcp_grace_us = 1500;
+	vh_init(0);
+	memset(&S13a, 0, sizeof(S13a));
+	memset(&S13b, 0, sizeof(S13b));
+	nng_stream_listener *sl;
+	nng_stream_dialer   *sd;
+	nng_aio             *acc;
+	char                 url[160];
+	if (tran == 0) {
+		int port = 0;
+		VH_OK(nng_stream_listener_alloc(&sl, "tcp://127.0.0.1:0"));
+		VH_OK(nng_stream_listener_listen(sl));
+		VH_OK(nng_stream_listener_get_int(sl, NNG_OPT_BOUND_PORT, &port));
+		snprintf(url, sizeof(url), "tcp://127.0.0.1:%d", port);
+	} else {
+		snprintf(url, sizeof(url), "ipc://%s/c02s13-%d", vx_rundir(), (int) getpid());
+		VH_OK(nng_stream_listener_alloc(&sl, url));
+		VH_OK(nng_stream_listener_listen(sl));
+	}
+	VH_OK(nng_aio_alloc(&acc, NULL, NULL));
+	nng_stream_listener_accept(sl, acc);
+	VH_OK(nng_stream_dialer_alloc(&sd, url));
+	VH_OK(nng_aio_alloc(&S13a.aio, op_cb, &S13a));
+	VH_OK(nng_aio_alloc(&S13b.aio, op_cb, &S13b));
+	S13a.timeout = S13b.timeout = -1;
+	S13a.submitted = S13b.submitted = 1;
+	vs_settle();
+	int settle_between = vs_choose(VK_ENV, 2);
+	vs_window(1);
+	nng_stream_dialer_dial(sd, S13a.aio);
+	nng_aio_cancel(S13a.aio);
+	if (settle_between)
+		vs_settle();
+	nng_stream_dialer_dial(sd, S13b.aio);
+	nng_aio_wait(S13a.aio);
+	nng_aio_wait(S13b.aio);
+	vs_window(0);
+	vs_settle();
+	vs_sleep(20);
+	if (S13a.ncb != 1 || S13b.ncb != 1)
+		vs_fail("C02:callback-count", "stream dial: %d and %d callbacks", S13a.ncb, S13b.ncb);
+	static const int ok_a[] = { 0, NNG_ECANCELED };
+	allowed(&S13a, "cancelled stream dial", ok_a, 2);
+	if (S13b.result == NNG_ECANCELED)
+		vs_fail("C02:stale-cancel",
+		    "the second nng_stream_dialer_dial over %s, which nobody cancelled, completed with "
+		    "NNG_ECANCELED (the first dial on the same dialer had just been cancelled, result %d)",
+		    tran ? "ipc" : "tcp", S13a.result);
+	static const int ok_b[] = { 0, NNG_ECONNREFUSED, NNG_ECONNRESET };
+	allowed(&S13b, "second stream dial", ok_b, 3);
+	vs_outcome("a=%d b=%d", S13a.result, S13b.result);
+	for (int i = 0; i < 2; i++) {
+		op *o = i ? &S13b : &S13a;
+		if (o->result == 0) {
+			nng_stream *st = nng_aio_get_output(o->aio, 0);
+			nng_stream_close(st);
+			nng_stream_stop(st);
+			nng_stream_free(st);
+		}
+	}
+	nng_stream_listener_close(sl);
+	nng_aio_wait(acc);
+	if (nng_aio_result(acc) == 0) {
+		nng_stream *st = nng_aio_get_output(acc, 0);
+		nng_stream_close(st);
+		nng_stream_stop(st);
+		nng_stream_free(st);
+	}
+	nng_stream_dialer_close(sd);
+	nng_stream_dialer_stop(sd);
+	nng_stream_dialer_free(sd);
+	nng_stream_listener_stop(sl);
+	nng_stream_listener_free(sl);
+	nng_aio_free(acc);
+	nng_aio_free(S13a.aio);
+	nng_aio_free(S13b.aio);
+	if (tran == 1)
+		unlink(url + 6);
+	vh_fini();
+}
+
 static void
 explore(const char *name, void (*fn)(void *), void *arg, int p, int t, int sw,
     int total)
@@ -932,6 +1023,8 @@ main(int argc, char **argv)
 	// with preemptions: a restart between the expire thread's decision and its cancel call
 	explore("S12-expiry-restart-preempt@10", run_s11, (void *) (intptr_t) (0x100 | 10), p, t, sw, tot);
 	explore("S12-expiry-restart-preempt@11", run_s11, (void *) (intptr_t) (0x100 | 11), p, t, sw, tot);
+	explore("S13-streamdial-cancel-redial-tcp", run_s13, (void *) 0, 1, 1, 2, 2);
+	explore("S13-streamdial-cancel-redial-ipc", run_s13, (void *) 1, 1, 1, 2, 2);
 	explore("S4-ctxrecv-reply", run_s4, (void *) 0, p, t, sw, tot);
 	explore("S4-ctxrecv-reply-cancel", run_s4, (void *) 1, p, t, sw, tot);
 	explore("S7-device-cancel", run_s7, NULL, 1, 1, 1, 1); // teardown has ~300 points: 1 deviation
